@@ -195,6 +195,8 @@ class ST:
             return ST.ew(I, ct.sc_and, a, b, dtype="bool")
         if isinstance(op, ast.BitOr):
             return ST.ew(I, ct.sc_or, a, b, dtype="bool")
+        if isinstance(op, ast.MatMult) and isinstance(a, ST) and isinstance(b, ST):  # a @ b = torch.matmul(a, b)
+            return _matmul(I, a, b)
         raise Unsupported("symbolic-shape tensor op %s" % type(op).__name__)
 
     def __vc_binop__(self, I, op, other, reflected):
